@@ -1,10 +1,12 @@
 use crate::fw::{Ctx, Outcome};
 
 pub mod c11;
+pub mod smoke;
 
 pub fn dispatch(ctx: &Ctx) -> Option<Outcome> {
     Some(match ctx.prop.as_str() {
         "C11" => c11::run(ctx),
+        "smoke" => smoke::run(ctx),
         "wire-selftest" => {
             let mut o = Outcome::new();
             match crate::wire::self_test() {
